@@ -38,6 +38,10 @@ package contracts
 //@   modifies randLast
 //@   ensures 0 <= r && r < n && randLast == r
 
+//@ extern func rand.Int63n(n int64) (r int64)
+//@   requires n > 0
+//@   modifies randLast
+//@   ensures 0 <= r && r < n
 //@ extern func rand.Seed(seed int64)
 
 //@ extern func time.Now() (t time.Time)
